@@ -169,6 +169,8 @@ Record create_post (opi : nat) (pod : name) (r : res) (plan : option (list (name
   cr_plugs : plugs w' = map (fun x => add_use (scale (created_on ms (p_node x)) r) x) (plugs w);
   cr_msgs : ms = [MCreateErr] \/ exists dm, plan = Some dm /\ length ms = plan_total dm;
   cr_created : forall p, In p (created_of ms) -> wi_op (fst p) = opi /\ snd p = r;
+  (* never more instances on a node than planned for it *)
+  cr_bound : forall n, (created_on ms n <= match plan with Some dm => atotal dm n | None => 0 end)%nat;
 }.
 
 Lemma find_plug_map : forall (G : plug -> plug) P n, (forall x, p_node (G x) = p_node x) ->
@@ -294,6 +296,7 @@ Proof.
     + transitivity (plugs w); [congruence|]. rewrite <- (map_id (plugs w)) at 1. apply map_ext. intros x. symmetry. apply add_use_0.
     + left; reflexivity.
     + intros p [].
+    + intros n. cbn. lia.
   - (* the condition step succeeded: deploy *)
     destruct (cfok eq_refl) as [Hms0 [dm [Hplan_eq [Halloc Hcsplan]]]]. subst plan.
     destruct Hplan as [Hnd [Hfe Hnodes]].
@@ -326,7 +329,8 @@ Proof.
         unfold crunk. cbn [runk]. intros E. inversion E. reflexivity. }
       subst ms'. destruct Hc3 as [Hp3 [Hn3 [Hpl3 [Hs3 [Hsc3 [Hw3 Hcc3]]]]]].
       constructor; [congruence|congruence|congruence|congruence
-                   |rewrite Hw3, Hw2, cfw; reflexivity|rewrite Hcc3, Hc2, cfc; reflexivity| |right; exists dm; auto|exact Hcr].
+                   |rewrite Hw3, Hw2, cfw; reflexivity|rewrite Hcc3, Hc2, cfc; reflexivity| |right; exists dm; auto|exact Hcr
+                   |intros n; rewrite Hnet; lia].
       rewrite Hpl3, Hpl2, cfpl, Halloc, alloc_eff_map. apply map_ext. intros x. rewrite Hnet. reflexivity.
     + (* some instance failed: the single fault has fired, the rollback runs undisturbed *)
       pose proof (Hkn ltac:(discriminate)) as Hk2. subst k2.
@@ -350,7 +354,8 @@ Proof.
         unfold crunk. cbn [runk]. intros E. inversion E. reflexivity. }
       subst ms'. destruct Hc4 as [Hp4 [Hn4 [Hpl4 [Hs4 [Hsc4 [Hw4 Hcc4]]]]]].
       constructor; [congruence|congruence|congruence|congruence
-                   |rewrite Hw4; congruence|rewrite Hcc4; congruence| |right; exists dm; auto|exact Hcr].
+                   |rewrite Hw4; congruence|rewrite Hcc4; congruence| |right; exists dm; auto|exact Hcr
+                   |intros n; rewrite Hnet; lia].
       rewrite Hpl4, Hpl3, Hpl2, cfpl, Halloc, rollback_eff_map, alloc_eff_map, map_map. apply map_ext. intros x.
       replace (p_node (add_use (scale (atotal dm (p_node x)) r) x)) with (p_node x) by reflexivity.
       rewrite Hnet. apply sub_add_net.
@@ -381,8 +386,9 @@ Theorem create_keeps_usage : forall opi pod r plan w k, create_hyp w opi r plan 
 Proof.
   intros opi pod r plan w k Hhyp Hok.
   destruct (create_spec opi pod r plan w k Hhyp) as [w' [k' [ms [H P]]]]. rewrite H. cbn [fst].
-  destruct P as [_ _ _ _ Hw _ Hpl _ Hcr].
+  destruct P as [_ _ _ _ Hw _ Hpl _ Hcr _].
   intros p' Hp'. rewrite Hpl in Hp'. apply in_map_iff in Hp'. destruct Hp' as [x [<- Hx]].
   cbn [add_use p_use p_node]. rewrite Hw, sum_on_app. rewrite (Hok x Hx).
   rewrite (sum_on_created pod r); [reflexivity|]. intros p Hp. apply (Hcr p Hp).
 Qed.
+
